@@ -81,6 +81,20 @@ def build(layout):
     return ctx, Model(layout, models), blocks
 
 
+def build_model(layout):
+    """the reference model alone (no pymodbus objects)"""
+    off = 0 if layout['zero_mode'] else 1
+    models = {}
+    for uid, lay in layout['units'].items():
+        tabs = {}
+        for t in TABLES:
+            if t in lay['alias']:
+                continue
+            tabs[t] = {a - off: v for a, v in block_cells(lay[t]).items() if 0 <= a - off <= 0xFFFF}
+        models[int(uid)] = RegFile(tabs, aliases=lay['alias'])
+    return Model(layout, models)
+
+
 def dump(blocks, zero_mode):
     """{uid: {table: {pdu_addr: value}}} read from the real blocks (read-only)"""
     off = 0 if zero_mode else 1
